@@ -559,6 +559,39 @@ void do_value(std::ostream &out, toks &t)
         auto a = rd(); auto b = rd();
         cmp_nohash(out, a, b);
     }
+    else if (ty == "show")
+    {
+        // k tagged values inserted into ONE stream, each followed by a newline
+        // (SH), and the same values each into a stream of its own (SHS)
+        std::ostringstream ss;
+        std::string separate;
+        long const k = t.num();
+        for (long i = 0; i < k; ++i)
+        {
+            std::ostringstream one;
+            auto put = [&ss, &one](auto const &v) { ss << v; one << v; };
+            std::string const tag = t.str();
+            if (tag == "colour") put(mk_colour(t));
+            else if (tag == "attr") put(mk_attr(t));
+            else if (tag == "cs") put(mk_cs(t.num()));
+            else if (tag == "glyph") put(mk_glyph(t));
+            else if (tag == "elem") put(mk_elem(t));
+            else if (tag == "str") put(mk_string(t));
+            else if (tag == "point") { long x = t.num(), y = t.num(); put(point{coordinate_type(x), coordinate_type(y)}); }
+            else if (tag == "extent") { long x = t.num(), y = t.num(); put(extent{coordinate_type(x), coordinate_type(y)}); }
+            else if (tag == "rect")
+            {
+                long x = t.num(), y = t.num(), w = t.num(), h = t.num();
+                put(rectangle{{coordinate_type(x), coordinate_type(y)}, {coordinate_type(w), coordinate_type(h)}});
+            }
+            else { out << "ERR unknown show tag\n"; return; }
+            ss << "\n";
+            separate += one.str() + "\n";
+        }
+        std::string const r = ss.str();
+        out << "SH " << hex(byte_storage(r.begin(), r.end())) << "\n";
+        out << "SHS " << hex(byte_storage(separate.begin(), separate.end())) << "\n";
+    }
     else out << "ERR unknown value type\n";
 }
 
